@@ -146,31 +146,49 @@ def gen(family_mc, base_cfg, consts, tag, env=None, timeout=2400, must_hold=True
             os.remove(f)
     e = {"GEN_OUT": raw}
     e.update(env or {})
-    r = run_tlc(family_mc, cfg_text(base_cfg, consts), os.path.join(d, "tlc"), env=e, timeout=timeout)
-    if r["violated"] and must_hold:
-        # the specification itself is inconsistent: Level I does not refine Level A
-        raise MachineryFailure("TLC: invariant(s) %s violated in %s (see %s)" % (r["violated"], family_mc, d))
-    if not r["completed"]:
-        raise MachineryFailure("TLC did not complete %s (rc=%s); see %s" % (family_mc, r["rc"], d))
-    seen = set()
-    n = 0
-    with open(cases, "w") as out:
-        if os.path.exists(raw):
-            for line in open(raw):
-                line = line.strip()
-                if not line:
-                    continue
-                try:
-                    s = json.loads(line)
-                    json.loads(s)
-                except Exception:
-                    raise MachineryFailure("corrupt line in generated cases of %s" % family_mc)
-                n += 1
-                if s in seen:
-                    continue
-                seen.add(s)
-                out.write(s + "\n")
-            os.remove(raw)
+
+    def run(workers):
+        for f in [raw, cases] + glob.glob(raw + ".*"):
+            if os.path.exists(f):
+                os.remove(f)
+        r = run_tlc(family_mc, cfg_text(base_cfg, consts), os.path.join(d, "tlc"), env=e, timeout=timeout, **({"workers": workers} if workers else {}))
+        if r["violated"] and must_hold:
+            # the specification itself is inconsistent: Level I does not refine Level A
+            raise MachineryFailure("TLC: invariant(s) %s violated in %s (see %s)" % (r["violated"], family_mc, d))
+        if not r["completed"]:
+            raise MachineryFailure("TLC did not complete %s (rc=%s); see %s" % (family_mc, r["rc"], d))
+        seen = set()
+        n = 0
+        import itertools
+        # raw.csv plus one raw.csv.<k> per state whose (long) records go to a file of their own
+        parts = ([raw] if os.path.exists(raw) else []) + sorted(glob.glob(raw + ".*"))
+        with open(cases, "w") as out:
+            if parts:
+                for line in itertools.chain.from_iterable(open(pp) for pp in parts):
+                    line = line.strip()
+                    if not line:
+                        continue
+                    try:
+                        s = json.loads(line)
+                        json.loads(s)
+                    except Exception:
+                        return r, None, None
+                    n += 1
+                    if s in seen:
+                        continue
+                    seen.add(s)
+                    out.write(s + "\n")
+                for pp in parts:
+                    os.remove(pp)
+        return r, n, seen
+
+    r, n, seen = run(None)
+    if n is None:
+        # long lines written by several TLC workers at once can interleave: emit again from a single worker
+        log("[gen] %s: a generated line was torn by concurrent writers; regenerating with one worker" % family_mc)
+        r, n, seen = run(1)
+        if n is None:
+            raise MachineryFailure("corrupt line in generated cases of %s" % family_mc)
     stats = {"states": r["distinct"], "transitions": r["generated"], "emitted": n, "distinct_cases": len(seen),
              "tlc_wall_s": round(r["wall"], 1), "spec": family_mc, "consts": consts}
     with open(statp + ".tmp", "w") as fh:
